@@ -164,6 +164,19 @@ for K, nm, h in (("ST_ERN", "ern", "stc_w_ern"), ("ST_D16", "disp16", "stc_w_dis
     form("C08", f"stc_w_{nm}", f"c08::stc_w($S, {{mode}}, c08::{K})", [h])
 
 
+C20_QUICK_ALU = {"add_b_rn", "sub_b_rn", "cmp_b_rn", "addx_rn", "neg_b", "inc_b", "dec_b", "adds1", "subs1", "not_b", "extu_w", "shal_b", "shar_b", "shll_b",
+                 "shlr_b", "rotl_b", "rotr_b", "rotxl_b", "rotxr_b", "and_b_rn", "or_b_rn", "xor_b_rn", "and_l_rn", "or_l_rn", "xor_l_rn",
+                 "mulxu_b", "mulxu_w", "divxu_b", "divxu_w_divisor4bit"}
+
+
+def c20_quick(prop, fname):
+    if prop in ("C01", "C05", "C06", "C08"):
+        return True
+    if prop == "C04":
+        return "_rn_" not in fname  # memory forms; register forms are I=1 only
+    return fname in C20_QUICK_ALU or fname.endswith("_w_imm") or fname.endswith("_l_imm")
+
+
 def register_forms():
     for prop, fname, call, keep, kw in FORMS:
         kw1 = {k: v for k, v in kw.items() if k != "no_cyc"}
@@ -172,6 +185,11 @@ def register_forms():
         if not kw.get("no_cyc"):
             kw2 = {k: v for k, v in kw.items() if k != "no_cyc"}
             kw2.setdefault("stubs", INSTR_STUBS)
+            # The quick tier of C20 has to stay below 15 minutes: single-word register-only forms whose whole
+            # charge is `calc_state(I, 1)` are represented by one form per source file there; every form is in
+            # the thorough tier.
+            if kw2.get("tier", "quick") == "quick" and not c20_quick(prop, fname):
+                kw2["tier"] = "thorough"
             add("C20", f"c20_{fname}", call.format(mode="ih::MODE_CYC"), keep=keep, **kw2)
 
 
@@ -238,9 +256,17 @@ add("C10", "c10_request_appends_9", "c10::request_appends($S, 9)", tier="thoroug
 add("C10", "c10_request_appends_5", "c10::request_appends($S, 5)")
 
 STUB_STDOUT = [("crate::cpu::Cpu::send_stdout_message", "crate::harness::c14::ghost_send_stdout")]
-add("C14", "c14_sys_write", "c14::sys_write($S)", stubs=INSTR_STUBS + (STUB_STDOUT,), keep=["trapa"], unwind=11, timeout=1500, mem_gb=24)
-add("C14", "c14_sys_set_handler", "c14::sys_set_handler($S)", stubs=INSTR_STUBS + (STUB_STDOUT,), keep=["trapa"], unwind=11, timeout=1500)
-add("C14", "c14_sys_other", "c14::sys_other($S)", stubs=INSTR_STUBS + (STUB_STDOUT,), keep=["trapa"], unwind=11, timeout=1500, mem_gb=24)
+add("C14", "c14_sys_write", "c14::sys_write($S, c14::SYM, c14::SYM)", stubs=INSTR_STUBS + (STUB_STDOUT,), keep=["trapa"], unwind=6, timeout=1500, mem_gb=24,
+    note="length 0..=4 and argument block address symbolic")
+# length and argument-block address as call-site constants: the emulator's read of `length` then folds to a
+# constant, so copy loops and allocations sized by it stay concrete whatever shape the copy code takes
+add("C14", "c14_sys_write_len4_argram", "c14::sys_write($S, 4, 0xffe000)", stubs=INSTR_STUBS + (STUB_STDOUT,), keep=["trapa"], unwind=6, timeout=1500, mem_gb=24)
+add("C14", "c14_sys_write_len1_argdram", "c14::sys_write($S, 1, 0x500000)", stubs=INSTR_STUBS + (STUB_STDOUT,), keep=["trapa"], unwind=6, timeout=1500, mem_gb=24)
+for n in (6, 8):
+    add("C14", f"c14_sys_write_len{n}_argram", f"c14::sys_write($S, {n}, 0xffe000)", stubs=INSTR_STUBS + (STUB_STDOUT,), keep=["trapa"], unwind=10, timeout=3000, mem_gb=24,
+        tier="thorough", note="length and argument block address are call-site constants")
+add("C14", "c14_sys_set_handler", "c14::sys_set_handler($S)", stubs=INSTR_STUBS + (STUB_STDOUT,), keep=["trapa"], unwind=9, timeout=1500)
+add("C14", "c14_sys_other", "c14::sys_other($S)", stubs=INSTR_STUBS + (STUB_STDOUT,), keep=["trapa"], unwind=6, timeout=1500, mem_gb=24)
 
 STUB_IOMSG = [("crate::bus::Bus::send_io_port_value", "crate::harness::c16::ghost_send_io_port_value")]
 add("C16", "c16_single_op", "c16::single_op($S)", stubs=(STUB_IOMSG,))
@@ -262,7 +288,7 @@ for _h, _i in _gen.parse_handlers().items():
 for _f, _hs in sorted(_by_file.items()):
     _n = _f[:-3]
     if _n == "trapa":
-        add("C15", "c15_free_trapa", "c15::free_trapa($S)", stubs=INSTR_STUBS + (STUB_STDOUT,), keep=_hs, unwind=11, timeout=1500)
+        add("C15", "c15_free_trapa", "c15::free_trapa($S)", stubs=INSTR_STUBS + (STUB_STDOUT,), keep=_hs, unwind=6, timeout=1500)
         continue
     add("C15", f"c15_free_{_n}", "c15::free_step($S, util::PC_RAM)", stubs=INSTR_STUBS, keep=_hs)
 add("C15", "c15_free_dispatch_ram", "c15::free_step($S, util::PC_RAM)", stubs=INSTR_STUBS, keep=[])
